@@ -93,6 +93,10 @@ def build():
 pub open spec fn skip_nl(b: Seq<u8>) -> Seq<u8>
     decreases b.len()
 { if b.len() > 0 && spec_is_newline(b[0]) { skip_nl(b.subrange(1, b.len() as int)) } else { b } }
+pub proof fn lemma_skip_nl_len(b: Seq<u8>)
+    ensures skip_nl(b).len() <= b.len(), skip_nl(skip_nl(b)) == skip_nl(b),
+    decreases b.len()
+{ if b.len() > 0 && spec_is_newline(b[0]) { lemma_skip_nl_len(b.subrange(1, b.len() as int)); } }
 #[verifier::external_body]
 """, "glue")
     u.emit(cl)
@@ -110,6 +114,7 @@ pub open spec fn skip_nl(b: Seq<u8>) -> Seq<u8>
     nx.props_all = ["C19", "C06"]
     nx.props_safety = ["C13"]
     nx.contracted = True  # the contract is the prophetic iterator laws of the trait (remaining() == records(slice))
+    nx.body_start("proof { lemma_skip_nl_len(self.slice@); }\n")
     u.emit(nx)
     u.raw("}\n", "glue")
 
